@@ -428,10 +428,10 @@ func c15CmapSelection(r *run.Run) {
 	}
 	// preference order of the property: full Unicode over BMP over legacy
 	keys := []key{{cmap.Key{PlatformID: 3, EncodingID: 10}, 1, true}, {cmap.Key{PlatformID: 0, EncodingID: 4}, 2, true}, {cmap.Key{PlatformID: 3, EncodingID: 1}, 3, false}, {cmap.Key{PlatformID: 0, EncodingID: 3}, 4, false}, {cmap.Key{PlatformID: 1, EncodingID: 0}, 5, false}}
-	runes := []rune{'A', 0xC4, 0x1F600, 'x'} // A, A-umlaut (Mac Roman 0x80), an astral character, an unmapped one
+	runes := []rune{'A', 0xC4, 0x1F600, 'x', 0x10041} // A, A-umlaut (Mac Roman 0x80), an astral character, an unmapped one, an unmapped astral one that equals 'A' in its low 16 bits
 	macByte := map[rune]uint16{'A': 0x41, 0xC4: 0x80}
 	r.Explore(explore.Config{Name: "C15.cmap-selection"},
-		"fonts whose cmap table holds every subset of the keys (3,10) (0,4) (3,1) (0,3) (1,0), each subtable with its own target glyph (formats 12 / 4; the Macintosh subtable in format 4 or 6 keyed by Mac Roman bytes), laid out on all strings of length <= 2 over {A, U+00C4, U+1F600, unmapped x}: each character must get the glyph of the preferred subtable present, or glyph 0",
+		"fonts whose cmap table holds every subset of the keys (3,10) (0,4) (3,1) (0,3) (1,0), each subtable with its own target glyph (formats 12 / 4; the Macintosh subtable in format 4 or 6 keyed by Mac Roman bytes), laid out on all strings of length <= 2 over {A, U+00C4, U+1F600, unmapped x, unmapped U+10041}: each character must get the glyph of the preferred subtable present, or glyph 0",
 		func(c *explore.Ctx) {
 			f, _ := FontFromChoices(gen.FontOpts{NoMeta: true, NoLayout: true}, gen.KindGlyf, 2, 0, 0, 1)
 			t := cmap.Table{}
@@ -707,7 +707,7 @@ func c15Kern(r *run.Run) {
 func c15Ligatures(r *run.Run) {
 	ligs := []rune{0xFB00, 0xFB01, 0xFB02, 0xFB03, 0xFB04}
 	r.Explore(explore.Config{Name: "C15.synthetic-ligatures", Bound: 1},
-		"fonts without GSUB read from a file: proportional and monospaced, all 32 subsets of U+FB00..FB04 mapped, with/without f, i, l mapped: proportional fonts ligate exactly the ligatures whose characters they map (longest first), monospaced fonts do not, and nothing is ligated when the caller switches the liga feature off or passes an empty feature map",
+		"fonts without GSUB read from a file: proportional and monospaced (by their advance widths; the isFixedPitch field of the post table agrees or contradicts), all 32 subsets of U+FB00..FB04 mapped, with/without f, i, l mapped: proportional fonts ligate exactly the ligatures whose characters they map (longest first), monospaced fonts do not, and nothing is ligated when the caller switches the liga feature off or passes an empty feature map",
 		func(c *explore.Ctx) {
 			mono := c.Bool("monospaced")
 			letters := []rune{'f', 'i', 'l'}
@@ -748,6 +748,26 @@ func c15Ligatures(r *run.Run) {
 				c.Fail("C15.ligatures", "write", "%v", err)
 				return
 			}
+			// the isFixedPitch field of the post table is only a hint: what counts are the advance widths
+			postFlag := c.Choose(2, "post isFixedPitch field contradicts the widths")
+			if postFlag == 1 {
+				cont, _ := refsfnt.Walk(file)
+				patched := false
+				for _, rec := range cont.Records {
+					if rec.Tag == "post" && rec.Length >= 16 {
+						v := byte(1)
+						if mono {
+							v = 0
+						}
+						file = append([]byte{}, file...)
+						copy(file[int(rec.Offset)+12:], []byte{0, 0, 0, v})
+						patched = true
+					}
+				}
+				if !patched {
+					c.Skip("no post table")
+				}
+			}
 			g, err := sfnt.Read(bytes.NewReader(file))
 			if err != nil {
 				c.Fail("C15.ligatures", "read", "%v", err)
@@ -756,7 +776,7 @@ func c15Ligatures(r *run.Run) {
 			// feature switches: the defaults, the ligatures switched off, no optional feature at all
 			swk := c.Choose(3, "feature switches")
 			sw := []map[string]bool{nil, {"liga": false}, {}}[swk]
-			c.Outcome(mono, fmt.Sprint(cm), swk)
+			c.Outcome(mono, fmt.Sprint(cm), swk, postFlag)
 			lay, err := g.NewLayouter(language.English, sw, nil)
 			if err != nil {
 				c.Fail("C15.ligatures", "NewLayouter", "%v", err)
